@@ -402,7 +402,7 @@ def m_int_from(I, st, c, args, body, t):
     if isinstance(a, IntV) and to in ("f32", "f64"):
         return st, ops.int_to_float(a, to)
     if isinstance(a, BoolV) and to in INT_TYPES:
-        return st, IntV.const(to, int(a.val)) if a.val is not None else IntV(to, None, 0, 1, None, a.deps)
+        return st, ops.bool_to_int(a, to)
     return st, Top(deps_of(a), "From::from")
 
 
@@ -1154,15 +1154,29 @@ def m_wrap_new(I, st, c, args, body, t):
     return st, args[0] if args else TupleV(())
 
 
+HM_ENTRY = "std::collections::hash_map::Entry"
+
+
 def m_hm_entry(I, st, c, args, body, t):
+    """HashMap::entry(key): the table's content is not tracked - the key is either present (the symbolic pre-state row of the
+    context) or absent.  I.side['table_mode'] = 'present' / 'absent' restricts the answer to one hypothesis (K2 runs the
+    updater once per hypothesis when it matches on the Entry itself)."""
     I.side["entry_key"] = args[1]
-    return st, StructV("Entry", {"key": args[1], "map": args[0]})
+    mode = I.side.get("table_mode")
+    v = {}
+    if mode in (None, "present"):
+        v["Occupied"] = ((StructV("OccupiedEntry", {"key": args[1], "map": args[0]}),), {})
+    if mode in (None, "absent"):
+        v["Vacant"] = ((StructV("VacantEntry", {"key": args[1], "map": args[0]}),), {})
+    return st, EnumV(HM_ENTRY, v)
 
 
 def m_hm_and_modify(I, st, c, args, body, t):
     row_cell = I.side.get("row_cell")
     if row_cell is None:
         return I.unmodelled(st, c, "and_modify (no row context)", args)
+    if I.side.get("table_mode") == "absent":
+        return st, args[0]
     s2, _ = I.call_value(st, args[1], [RefV(row_cell, (), True)])
     I.side["update_row"] = I.cell_get(s2, row_cell)
     I.side["update_state"] = s2
@@ -1170,9 +1184,63 @@ def m_hm_and_modify(I, st, c, args, body, t):
 
 
 def m_hm_or_insert(I, st, c, args, body, t):
-    I.side["create_row"] = args[1]
     row_cell = I.side.get("row_cell")
+    if I.side.get("table_mode") != "present":
+        v = args[1]
+        if c.get("name") in ("or_insert_with", "or_insert_with_key") and not isinstance(v, (StructV,)):
+            try:
+                st, v = I.call_value(st, args[1], [] if c.get("name") == "or_insert_with" else [I.side.get("entry_key")])
+            except Exception:
+                pass
+        I.side["create_row"] = v
     return st, RefV(row_cell, (), True) if row_cell is not None else Top(why="or_insert")
+
+
+def m_hm_occupied(I, st, c, args, body, t):
+    """OccupiedEntry::get / get_mut / into_mut / insert / key: the entry is the context's row"""
+    row_cell = I.side.get("row_cell")
+    nm = c.get("name")
+    I.side["entry_style"] = "match"
+    if row_cell is None:
+        return I.unmodelled(st, c, "%s (no row context)" % nm, args)
+    if nm == "insert":
+        old = I.cell_get(st, row_cell)
+        try:
+            I.on_store(st, row_cell, (), args[1], t)
+        except Exception:
+            pass
+        I.cell_set(st, row_cell, args[1])
+        return st, old
+    if nm == "key":
+        return st, I.side.get("entry_key")
+    return st, RefV(row_cell, (), nm != "get")
+
+
+def m_hm_vacant_insert(I, st, c, args, body, t):
+    """VacantEntry::insert(v) / insert_entry: a new row"""
+    I.side["entry_style"] = "match"
+    I.side["create_row"] = args[1]
+    return st, RefV(I.new_cell(st, args[1]), (), True)
+
+
+def m_hm_insert(I, st, c, args, body, t):
+    """HashMap::insert(k, v): creates the row (absent hypothesis) or replaces it (present hypothesis)"""
+    row_cell = I.side.get("row_cell")
+    mode = I.side.get("table_mode")
+    I.side["entry_style"] = "match"
+    if mode != "present":
+        I.side["create_row"] = args[2]
+    if mode == "absent" or row_cell is None:
+        return st, EnumV.none()
+    old = I.cell_get(st, row_cell)
+    if mode == "present":
+        try:
+            I.on_store(st, row_cell, (), args[2], t)
+        except Exception:
+            pass
+        I.cell_set(st, row_cell, args[2])
+        return st, EnumV.some(old)
+    return st, EnumV(OPT, {"None": ((), {}), "Some": ((old,), {})})
 
 
 def m_hm_retain(I, st, c, args, body, t):
@@ -1316,6 +1384,11 @@ class Models:
         E["std::collections::HashMap::<K, V, S, A>::entry"] = m_hm_entry
         E["std::collections::hash_map::Entry::<'a, K, V, A>::and_modify"] = m_hm_and_modify
         E["std::collections::hash_map::Entry::<'a, K, V, A>::or_insert"] = m_hm_or_insert
+        E["std::collections::hash_map::Entry::<'a, K, V, A>::or_insert_with"] = m_hm_or_insert
+        for nm in ("get", "get_mut", "into_mut", "insert", "key"):
+            E["std::collections::hash_map::OccupiedEntry::<'a, K, V, A>::" + nm] = m_hm_occupied
+        E["std::collections::hash_map::VacantEntry::<'a, K, V, A>::insert"] = m_hm_vacant_insert
+        E["std::collections::HashMap::<K, V, S, A>::insert"] = m_hm_insert
         E["std::collections::HashMap::<K, V, S, A>::retain"] = m_hm_retain
         E["std::collections::HashMap::<K, V, S, A>::shrink_to_fit"] = m_unit
         E["std::cmp::PartialOrd::le"] = m_bool_unknown
